@@ -103,7 +103,7 @@ for _pid, _num, _labs, _sig in [
         trusted_base=DRV_TRUSTED + (ENG_TRUSTED if "eng" in _labs else []), assumptions=["driver table holds what SendProbe stored (replayed from the observed sends)"])
 
 _SHARED_SIGS = {"1.2": "composed run on a shared wire: a router of another flow appears among the hops", "2.3": "composed run on a shared wire: the run did not report the ideal path of its own flow (a reply that was delivered is missing or misplaced)",
-                "5.2": "composed run: a hop's RTT is not send -> FIRST reply of that probe (e.g. overwritten by a later duplicate)", "11.5": "two concurrent runs used the same flow identifier"}
+                "5.2": "composed run: a hop's RTT is not send -> FIRST reply of that probe (e.g. overwritten by a later duplicate)", "11.5": "two concurrent runs used the same flow identifier", "11.6": "a run did not hold its local UDP / TCP port while in flight (another socket could bind it)"}
 PAR_RULE = ("Parameter / policy lab: (8) the real RunTraceroute over the simulated wire behind packets.NewSourceSink with TTL bounds from {-1,0,1,2,255,256,257} x {-1,0,1,5,254..258,300,511,65541}, ports {0,1,80,65535,65536,65616,-1,131070}, "
             "udp/tcp/icmp/unknown protocol, syn/default/unknown method, IPv4 and IPv6 loopback targets: error vs the TTLs, address, port and protocol actually on the wire; every fourth request also through the real command line (cobra flags --proto --max-ttl --port --tcp-method --ipv6, incl. --max-ttl -30/-1/0/256/300) with the same observables; (9) the HTTP handler's query parsing on numeric/non-numeric/absent values; "
             "(10) target literal forms (IPv4, IPv6, bracketed, with and without port) x default ports around 0/1/65535/65536; (11) performTCPFallback with random error trees (wrap depth <= 4, NotSupportedError at any depth, errors.Join); "
@@ -125,7 +125,7 @@ ISO_RULE = ("Allocator lab: packets.AllocPacketID sequences of 1..12 blocks (siz
 SHARED_RULE = ("Shared-wire lab (kind 18): 2..6 REAL runs at once (runTracerouteOnce for udp / icmp / tcp-syn, IPv4 and IPv6, and whole RunTraceroute requests with 1..3 queries + 0..2 end-to-end probes) in one synctest bubble over ONE simulated wire on which every capture handle sees every inbound packet, with and without the capture filters; "
             "the network routes per flow (path length, silent router and router ADDRESSES are functions of the echo id / local port), start offsets 0..51 ms, duplicated replies; observed: every run's hop list, which must be the ideal path of its own flow, and every hop RTT, which under the virtual clock must be exactly the delay of the FIRST reply to that probe (composed driver + engine).")
 PROPS["C11"] = dict(num=11, labs=["iso", "drv", "shared"], rule=ISO_RULE + " " + SHARED_RULE + " " + DRV_RULE, nontrivial="any case", trivial_classes=[],
-    signatures={"11.1": "a reply to another concurrent run's probe became a hop of this run", "11.2": "identifier blocks of live runs overlap", "11.3": "echo identifiers repeat", "11.4": "a run on the shared wire did not report the path of its own flow (the result it produces alone)", "11.5": "two concurrent runs used the same flow identifier", "1": "a hop was reported for a packet that is not a genuine reply to this run's probe", "1.9": "hop from unparseable bytes"},
+    signatures={"11.1": "a reply to another concurrent run's probe became a hop of this run", "11.2": "identifier blocks of live runs overlap", "11.3": "echo identifiers repeat", "11.6": "a run did not hold its local UDP / TCP port while in flight (another socket could bind it)", "11.4": "a run on the shared wire did not report the path of its own flow (the result it produces alone)", "11.5": "two concurrent runs used the same flow identifier", "1": "a hop was reported for a packet that is not a genuine reply to this run's probe", "1.9": "hop from unparseable bytes"},
     trusted_base=DRV_TRUSTED + ["sync/atomic Add is linearisable (the allocator model is sequential)", "the OS never hands one local port to two sockets held at the same time (oracle)"],
     assumptions=["runs with relaxed quoted-source checking to one target are distinguished by 32-bit random ISNs only (named residue)"])
 
@@ -152,7 +152,7 @@ PROPS["C14"] = dict(num=14, labs=[], rule="Access table regenerated from the Go 
     trusted_base=["tools/goextract/accesses.go (syntactic lock regions, intra-package inlining; blind spots listed in DESIGN.md)", "Go's race detector (used only to exhibit a schedule, never as the proof)"],
     assumptions=["sync.Mutex provides mutual exclusion; sync/atomic, channels, context, errgroup, WaitGroup are race-free by construction"])
 
-PROPS["C13"] = dict(num=13, labs=["kern"], rule="Kernel lab: private network namespaces (tools/netlab.py) client - r1 .. rn - destination, n = 1..3 (1..5 thorough), kernel routers with forwarding on; the harness binary runs the real RunTraceroute inside the client namespace "
+PROPS["C13"] = dict(num=13, labs=["kern"], rule="Kernel lab: private network namespaces (tools/netlab.py) client - r1 .. rn - destination, n = 1..3 (1..5 thorough), kernel routers with forwarding on, dual stack (198.18.i.0/24 and fd00:18:i::/64); the harness binary runs the real RunTraceroute inside the client namespace "
     "over real raw sockets and AF_PACKET capture: ICMP, UDP, TCP SYN to an open and to a closed port, TCP SACK, prefer_sack; a router with time-exceeded generation suppressed (nftables), a destination with tcp_sack=0, first TTL 2, a last TTL short of the destination, and 2-3 runs at once. "
     "Every reply is produced by the kernel's own IP/ICMP/TCP stack.",
     nontrivial="every scenario (a real run over kernel routers)", trivial_classes=[],
